@@ -765,3 +765,23 @@ package node
 //@   ensures !(r.Base != nil && r.Base.Meta == r.Meta && child.InsideList) ==> result1 && result2 == nil
 //@   ensures (r.Base != nil && r.Base.Meta == r.Meta && child.InsideList) && result2 == nil ==> result1 == xpredHolds(child, w.xpathFilter)
 //@   ensures nodeWrites == old(nodeWrites) && open == old(open)
+
+// when: a definition without a when-statement is always visible; with one, visibility is the predicate's value
+//@ pure whenOf(m meta.HasWhen) *meta.When
+//@ interface meta.HasWhen.When() *meta.When
+//@   assigns nothing
+//@   ensures result == whenOf(self)
+//@ func (y CheckWhen) check(s *Selection, m meta.Meta) (bool, error)
+//@   mode int
+//@   property C16
+//@   requires true
+//@   ensures s == nil ==> result0 && result1 == nil
+//@   ensures s != nil && (dyn(m) != meta.HasWhen || whenOf(m) == nil) ==> result0 && result1 == nil
+//@   check [whenDecides] s != nil && dyn(m) == meta.HasWhen && whenOf(m) != nil && result1 == nil ==> result0 == xpredHolds(s, xp)
+//@   ensures nodeWrites == old(nodeWrites) && open == old(open)
+
+//@ func (f xpathFilter) CheckNotifyFilterConstraints(msg *Selection) (bool, error)
+//@   mode int
+//@   property C16
+//@   ensures result1 == nil ==> result0 == xpredHolds(msg, f.p)
+//@   ensures nodeWrites == old(nodeWrites) && open == old(open)
